@@ -254,30 +254,26 @@ type ToolResultContent struct {
 }
 
 func (c *ToolResultContent) MarshalJSON() ([]byte, error) {
-	// Marshal nested content
-	var contentWire []*wireContent
+	// Marshal nested content. Each block is emitted exactly as its own
+	// MarshalJSON produced it: re-decoding it into wireContent and encoding that
+	// again would drop required members that are empty (such as the "text" of
+	// an empty TextContent).
+	contentWire := make([]json.RawMessage, 0, len(c.Content)) // never nil: avoid JSON null
 	for _, content := range c.Content {
 		data, err := content.MarshalJSON()
 		if err != nil {
 			return nil, err
 		}
-		var w wireContent
-		if err := internaljson.Unmarshal(data, &w); err != nil {
-			return nil, err
-		}
-		contentWire = append(contentWire, &w)
-	}
-	if contentWire == nil {
-		contentWire = []*wireContent{} // avoid JSON null
+		contentWire = append(contentWire, data)
 	}
 
 	wire := struct {
-		Type              string         `json:"type"`
-		ToolUseID         string         `json:"toolUseId"`
-		Content           []*wireContent `json:"content"`
-		StructuredContent any            `json:"structuredContent,omitempty"`
-		IsError           bool           `json:"isError,omitempty"`
-		Meta              Meta           `json:"_meta,omitempty"`
+		Type              string            `json:"type"`
+		ToolUseID         string            `json:"toolUseId"`
+		Content           []json.RawMessage `json:"content"`
+		StructuredContent any               `json:"structuredContent,omitempty"`
+		IsError           bool              `json:"isError,omitempty"`
+		Meta              Meta              `json:"_meta,omitempty"`
 	}{
 		Type:              "tool_result",
 		ToolUseID:         c.ToolUseID,
